@@ -15,7 +15,7 @@ import world as W
 ID = 'C01'
 LEVEL = 'exploration'
 N_QUICK = 3500
-N_THOROUGH = 200000
+N_THOROUGH = 120000
 ASSUMPTIONS = [
     'the space of Python statements is not what the simulator explores: the step forms of world.py are the workload',
     'layouts the documentation does not fix are not generated (e.g. unprefixed string lines followed by a "..." line)',
